@@ -1,6 +1,6 @@
 \* exhaustive (thorough tier): up to 2 tracks, up to 2 packets over all ten boundary sizes and three TOC classes
 CONSTANTS
-  Impl = "intended"
+  Impl = "current"
   Apis = {"New", "NewWith", "Writer", "WriterSeek"}
   MaxTracks = 2
   MaxPackets = 2
